@@ -195,9 +195,13 @@ func cmdCheck(args []string) int {
 		}
 		return contains(pc.Kinds, k)
 	}
+	var stale []string
 	for _, r := range results {
 		if r.Err != "" {
-			engineErrs = append(engineErrs, r.Fn+": "+r.Err)
+			// the contracts no longer fit the function (a name they mention is gone, the loop structure
+			// changed, a construct outside the subset appeared): its obligations cannot be generated, so
+			// the property can no longer be shown. Never happens on the tree the contracts were written for.
+			stale = append(stale, r.Fn+": "+r.Err)
 		}
 		wantPosts, restrict := pc.Posts[r.Fn]
 		for _, o := range r.Obls {
@@ -367,6 +371,15 @@ func cmdCheck(args []string) int {
 			"verifier_output": "the obligations of this function can no longer be generated, so the property cannot be shown"})
 		outLines = append(outLines, fmt.Sprintf("VIOLATION property=%s replay=%s no-failing-input-found", id, rp))
 		fmt.Printf("FAILED-OBLIGATION CONTRACT-ORPHAN %s\n", m)
+	}
+	for _, m := range stale {
+		violations++
+		os.MkdirAll(replayDir, 0o755)
+		rp := filepath.Join(replayDir, sanitizeFile("stale_"+m)+".json")
+		writeJSON(rp, map[string]interface{}{"property": id, "obligation": "CONTRACT-STALE", "what": "the obligations of this function can no longer be generated from its contract: " + m,
+			"verifier_output": m})
+		outLines = append(outLines, fmt.Sprintf("VIOLATION property=%s replay=%s no-failing-input-found", id, rp))
+		fmt.Printf("FAILED-OBLIGATION CONTRACT-STALE %s\n", trunc(m, 300))
 	}
 	for _, v := range vanished {
 		violations++
